@@ -13,11 +13,11 @@ func init() { register("C13", "Corr.Run_C13", genC13) }
 func len16(b []byte) []byte { return append(be16(len(b)), b...) }
 
 type c13Client struct {
-	tok   int
-	w     *WireClient
-	id    []byte
-	seen  int // frames already consumed
-	login bool
+	tok       int
+	w         *WireClient
+	id        []byte
+	seen      int // frames already consumed
+	login     bool
 	pendingPM uint32
 }
 
